@@ -332,10 +332,19 @@ L1_NAME = "abÅéß,.-'ÿµ"
 
 
 def _name(alpha):
+    """Mostly names as git writes them (no blank at either end); sometimes
+    the empty name or a blank at an end, which other writers produce and the
+    mapping must hand back unchanged as well."""
     inner = st.text(alphabet=alpha + " ", min_size=0, max_size=6)
     edge = st.sampled_from(sorted(set(alpha)))
-    return st.tuples(edge, inner, st.one_of(st.just(""), edge)).map(
+    core = st.tuples(edge, inner, st.one_of(st.just(""), edge)).map(
         lambda t: t[0] + ((t[1] + t[2]) if t[2] else t[1].rstrip(" ")))
+    pad = st.sampled_from([""] * 10 + [" ", "  "])
+    return st.one_of(
+        st.tuples(pad, core, pad).map("".join),
+        st.tuples(pad, core, pad).map("".join),
+        st.tuples(pad, core, pad).map("".join),
+        st.sampled_from(["", " "]))
 
 
 def _person(alpha):
@@ -468,7 +477,7 @@ def gen_case(draw):
 def kinds(tier):
     return [
         Kind("commit-grammar", run, strategy=gen_case(),
-             examples={"quick": 20000, "thorough": 800000}),
+             examples={"quick": 16000, "thorough": 800000}),
     ]
 
 
